@@ -162,7 +162,7 @@ func summarize(b []byte, special rune, verbose *[]string) uint64 {
 }
 
 func stageE3c() stageResult {
-	s := stageResult{Name: "E3c", Exhaustive: true, Domain: "every code point r in short probe strings (alone, before and after each of 11 context code points, and in the look-ahead position of WB6/WB7, WB12, SB8 and LB25) through the whole public API (all First* chains in both forms, Step, StepString, StringWidth, GraphemeClusterCount, HasTrailingLineBreak on every line segment): results (lengths in code points, widths, flags, mustBreak, state integers) = results of the same probes with r replaced by the representative of its class signature (Go vs Go)"}
+	s := stageResult{Name: "E3c", Exhaustive: true, Domain: "every code point r in short probe strings (alone, before and after each of 11 context code points, in the look-ahead position of WB6/WB7, WB12, SB8 and LB25, and as the third code point after VS16, an emoji ZWJ, a flag and a quote) through the whole public API (all First* chains in both forms, Step, StepString, StringWidth, GraphemeClusterCount, HasTrailingLineBreak on every line segment): results (lengths in code points, widths, flags, mustBreak, state integers) = results of the same probes with r replaced by the representative of its class signature (Go vs Go)"}
 	ctx := []rune{'a', ' ', '1', '.', '(', 0x0301, 0x200D, 0x1F600, 0x0600, 0x1F1E6, 0x3042}
 	var cps []rune
 	for r := rune(0); r <= 0x10FFFF; r++ {
@@ -178,6 +178,8 @@ func stageE3c() stageResult {
 		}
 		// r where the look-ahead loops meet it: WB6/WB7 (skipped or deciding), WB12, SB8 (scanned over or stopping), LB25
 		out = append(out, enc('a', '\'', r, 'b'), enc('1', ',', r, '2'), enc('A', '.', ' ', r, ' ', 'a'), enc('$', '(', r, '1'))
+		// r as the third code point of a cluster or word: after a variation selector, an emoji ZWJ, a flag, a quote
+		out = append(out, enc('1', 0xFE0F, r), enc(0x1F600, 0x200D, r), enc(0x1F1E6, 0x1F1E6, r), enc('a', '\'', r))
 		return out
 	}
 	nw := 16
@@ -231,6 +233,6 @@ func stageE3c() stageResult {
 			}
 		}
 	}
-	s.Samples = []string{fmt.Sprintf("%d code points x %d probes", len(cps), 5+2*len(ctx))}
+	s.Samples = []string{fmt.Sprintf("%d code points x %d probes", len(cps), 9+2*len(ctx))}
 	return s
 }
